@@ -368,6 +368,13 @@ type HLog struct {
 	Calls []*HCall
 }
 
+// Reset forgets the calls seen so far.
+func (l *HLog) Reset() {
+	l.mu.Lock()
+	l.Calls = nil
+	l.mu.Unlock()
+}
+
 func (l *HLog) add(c *HCall) {
 	l.mu.Lock()
 	l.Calls = append(l.Calls, c)
